@@ -172,6 +172,25 @@ Theorem C17_lattice_nsurf_exact : forall n k,
 Proof. exact square_nb_exact. Qed.
 Print Assumptions C17_lattice_nsurf_exact.
 
+(* in every run that finishes, every LAT=1 cell filled through an array or a
+   --lattice option is bounded by 2, 4 or 6 surface pieces, its ranges fit the
+   number of lattice directions (as many ranges, or as many non-trivial ones),
+   and it holds exactly size(ranges) universes *)
+Theorem C17_lattice_ranges_checked : forall T (S : Scalar T) (d : deckm (T:=T)),
+  validate S d = Ok tt ->
+  forall lat trs sm imps cells,
+    parse_lattice (d_latopts d) = Ok lat -> stage_trs S (d_trs d) [] = Ok trs ->
+    stage_surfs S trs (d_surfs d) [] = Ok sm -> imp_cards_check S (d_imps d) = Ok imps ->
+    stage_cells S trs imps lat 0 (d_cells d) = Ok cells ->
+    forall c cs b univs, In (c, cs) cells -> cs_lat cs = Some 1%Z ->
+      cs_fill cs = Some (FLat b univs) -> c_compl c = [] ->
+      exists ns nb, count_subsurfs sm (c_lits c) = Ok ns /\
+        (ns = 2 /\ nb = 1 \/ ns = 4 /\ nb = 2 \/ ns = 6 /\ nb = 3)%nat /\
+        (nb = List.length b \/ nb = bounds_dims b) /\
+        Z.of_nat (List.length univs) = bounds_size b.
+Proof. exact @run_lattice_ranges_checked. Qed.
+Print Assumptions C17_lattice_ranges_checked.
+
 (* ---------------- facets ---------------- *)
 
 (* in every run that finishes: facets of directly converted cells are <= the
